@@ -7,6 +7,15 @@
 
 package rapidproto
 
+//@ extern google.golang.org/protobuf/reflect/protoreflect.MessageDescriptor.Fields
+//@   pure
+//@   trusted protobuf-go: a message descriptor has a (possibly empty) non-nil field list
+//@   ensures result0 != nil
+
+//@ extern google.golang.org/protobuf/reflect/protoreflect.Value.Message
+//@   trusted protobuf-go: the message held by a message-kind value (Mutable, AppendMutable, NewElement results) is non-nil
+//@   ensures result0 != nil
+
 //@ func setSecondsNanosFields
 //@   property C18
 //@   mode math
@@ -29,6 +38,9 @@ package rapidproto
 //@   property C18
 //@   mode math
 //@   no-safety
+//@   note field may be nil (top-level message, message packed inside an Any); msg never is
+//@   requires[msg] msg != nil
+//@   requires[resolver] len(opts.AnyTypeURLs) == 0 || opts.Resolver != nil
 //@   requires[depth] 0 <= depth && depth <= 12
 //@   decreases 13 - depth rank 2
 //@   loop 1: invariant 0 <= i
@@ -38,6 +50,9 @@ package rapidproto
 //@   property C18
 //@   mode math
 //@   no-safety
+//@   requires[msg] msg != nil
+//@   requires[field] field != nil
+//@   requires[resolver] len(opts.AnyTypeURLs) == 0 || opts.Resolver != nil
 //@   requires[depth] 0 <= depth && depth <= 10
 //@   decreases 13 - depth rank 1
 //@   loop 1: invariant 0 <= i
@@ -48,7 +63,10 @@ package rapidproto
 //@ func GeneratorOptions.genAny
 //@   property C18
 //@   mode math
-//@   no-safety
+//@   no-safety except nil
+//@   note field may be nil: setFields passes its own field argument through, and that is nil for a top-level Any
+//@   requires[msg] msg != nil
+//@   requires[resolver] len(opts.AnyTypeURLs) == 0 || opts.Resolver != nil
 //@   requires[depth] 0 <= depth && depth <= 11
 //@   decreases 13 - depth rank 1
 
